@@ -356,17 +356,17 @@ class Parser:
         if not start_token.value:
             start: Optional[int] = None
         else:
-            start = int(start_token.value)
+            start = self._to_int(start_token)
 
         if not stop_token.value:
             stop: Optional[int] = None
         else:
-            stop = int(stop_token.value)
+            stop = self._to_int(stop_token)
 
         if not step_token.value:
             step: Optional[int] = None
         else:
-            step = int(step_token.value)
+            step = self._to_int(step_token)
 
         return SliceSelector(
             env=self.env,
@@ -403,7 +403,7 @@ class Parser:
                     IndexSelector(
                         env=self.env,
                         token=stream.current,
-                        index=int(stream.current.value),
+                        index=self._to_int(stream.current),
                     )
                 )
             elif stream.current.kind == TOKEN_BARE_PROPERTY:
@@ -525,12 +525,35 @@ class Parser:
     def parse_string_literal(self, stream: TokenStream) -> FilterExpression:
         return StringLiteral(value=self._decode_string_literal(stream.current))
 
+    def _to_int(self, token: Token) -> int:
+        """Convert an index or slice token to an int."""
+        try:
+            return int(token.value)
+        except ValueError as err:
+            # Scientific notation, or too many digits.
+            raise JSONPathSyntaxError(
+                f"invalid integer {token.value[:20]!r}", token=token
+            ) from err
+
     def parse_integer_literal(self, stream: TokenStream) -> FilterExpression:
-        # Convert to float first to handle scientific notation.
-        return IntegerLiteral(value=int(float(stream.current.value)))
+        value = stream.current.value
+        try:
+            if "e" in value or "E" in value:
+                # Convert to float first to handle scientific notation.
+                return IntegerLiteral(value=int(float(value)))
+            return IntegerLiteral(value=int(value))
+        except (OverflowError, ValueError) as err:
+            raise JSONPathSyntaxError(
+                "number literal out of range", token=stream.current
+            ) from err
 
     def parse_float_literal(self, stream: TokenStream) -> FilterExpression:
-        return FloatLiteral(value=float(stream.current.value))
+        value = float(stream.current.value)
+        if value in (float("inf"), float("-inf")):
+            raise JSONPathSyntaxError(
+                "number literal out of range", token=stream.current
+            )
+        return FloatLiteral(value=value)
 
     def parse_prefix_expression(self, stream: TokenStream) -> FilterExpression:
         tok = stream.next_token()
@@ -622,7 +645,12 @@ class Parser:
             stream.next_token()
             for flag in set(stream.current.value):
                 flags |= self.RE_FLAG_MAP[flag]
-        return RegexLiteral(value=re.compile(pattern, flags))
+        try:
+            return RegexLiteral(value=re.compile(pattern, flags))
+        except re.error as err:
+            raise JSONPathSyntaxError(
+                f"invalid regular expression: {err}", token=stream.current
+            ) from err
 
     def parse_list_literal(self, stream: TokenStream) -> FilterExpression:
         stream.next_token()
